@@ -187,6 +187,10 @@ func faultResidue(t *testing.T, prop string) {
 		}
 		nt := len(st.fired) > 0 && st.fileChecks > 0
 		var cl []string
+		if st.knownKept > 0 {
+			rec.Add("excluded_by_known_finding", 1)
+			cl = append(cl, "known-finding-F27-passed-over")
+		}
 		if nt {
 			cl = append(cl, "file-set-checked-after-faults")
 		}
